@@ -237,7 +237,9 @@ def cmd_check(prop, tier, seed, only=None, jobs=None):
     import random as _random
     by_name = {c.name: c for c in contracts}
     ok_results = [r for r in results if "crash" not in r]
-    maxlen, cap_standin, cap_xcheck = (3, 3000, 300) if tier == "quick" else (4, 40000, 3000)
+    # caps count ATTEMPTS (candidates incl. those the contract's requires rejects).  A stand-in should exhaust its family:
+    # two arrays of length <= 3 over 5 letters are 156^2 = 24336 candidates.
+    maxlen, cap_standin, cap_xcheck = (3, 30000, 300) if tier == "quick" else (4, 700000, 3000)
     tb_jobs, tb_meta = [], []
     chosen = set()
     for r in ok_results:
@@ -281,10 +283,12 @@ def cmd_check(prop, tier, seed, only=None, jobs=None):
             tierb_errors.append("contract %s[%s] cannot be evaluated natively: %s" % (r["contract"], r["case"], str(e.get("error"))[:300]))
         proved_here = set(r.get("proved_clauses", []))
         sym_failed = {o["name"] for o in r["obligations"] if o["status"] != "proved"}
+        seen_b = set()
         for fl in st.get("failures", []):
             for cl in fl["clauses"]:
-                if cl in sym_failed:
-                    continue                      # already reported from the symbolic pass
+                if cl in sym_failed or cl in seen_b:
+                    continue                      # already reported (symbolic pass / an earlier input of this case)
+                seen_b.add(cl)
                 agg["failures"] += 1
                 rec = {"property": prop, "contract": r["contract"], "module": r["module"], "target": r["target"],
                        "case": r["case_params"], "obligation": cl, "status": "false on the real code (bounded enumeration)",
